@@ -7,7 +7,7 @@
    encoding/xml marshalling of the descriptor: [marshal_descriptor] = the generic interpreter of Marshal.v run on the
    struct-tag schema of the marshalled types that gen/ extracts from /repo on every run (Generated.metadata_schema /
    metadata_omitempty); [descriptor_tree] is the hand-written SAML metadata document the theorems compare it with. *)
-From V Require Import Base Time Escape Xml SchemaDefs Schema ConcDefs Generated Keys Marshal.
+From V Require Import Base Time Escape Xml SchemaDefs Schema ConcDefs Generated Keys Marshal XmlTok.
 Local Open Scope string_scope.
 Local Open Scope list_scope.
 Local Open Scope Z_scope.
@@ -271,12 +271,25 @@ Definition ed_val (ed : entity_descriptor) : val :=
             VL (map (fun e => match e with (b, l, i) => VL [VS b; VS l; VZ i] end) (ed_acs ed));
             VL (map (fun e => match e with (b, l) => VL [VS b; VS l] end) (ed_slo ed)) ].
 
-(* the bytes of both variants (correspondence with xml.Marshal(sp.Metadata()) / xml.Marshal(sp.MetadataWithSLO(h))) *)
+(* what the reader-side models make of marshalled bytes: XmlTok.read_tree (encoding/xml RawToken + etree's tree builder),
+   then Unmarshal (Schema.v on the generated metadata schema), projected like [ed_val]; compared with the real
+   xml.Unmarshal of the real bytes *)
+Definition readback_val (bytes : string) : val :=
+  match read_tree bytes with
+  | Ok t => match unmarshal_parsed metadata_schema "EntityDescriptor" t with
+            | Ok g => VC "Ok" [ed_val (gval_descriptor g)]
+            | Err _ => VC "UnmarshalErr" []
+            end
+  | Err _ => VC "ReadErr" []
+  end.
+
+(* the bytes of both variants (correspondence with xml.Marshal(sp.Metadata()) / xml.Marshal(sp.MetadataWithSLO(h))) and
+   what is read back from them *)
 Definition md_xml_obs (i : md_config * instant * Z) : val :=
   match i with
   | (c, now, h) =>
-      VL [kres_val (fun d => res_val VS (marshal_descriptor d)) (metadata c now);
-          kres_val (fun d => res_val VS (marshal_descriptor d)) (metadata_with_slo c now h)]
+      let f d := res_val (fun b => VL [VS b; readback_val b]) (marshal_descriptor d) in
+      VL [kres_val f (metadata c now); kres_val f (metadata_with_slo c now h)]
   end.
 
 (* both variants for one configuration, clock and hour count *)
@@ -316,8 +329,8 @@ Definition c19_obs (k : c19_case) : val :=
 (* the marshalled bytes of both variants for the same generated case *)
 Definition c19_xml_obs (k : c19_case) : val :=
   let (cfg, _) := apply_calls (cc_fields k) (cc_calls k) in
-  md_xml_obs ({| mc_keys := cfg; mc_issuer := cc_issuer k; mc_acs_url := cc_acs_url k; mc_slo_url := cc_slo_url k;
-                 mc_sign_requests := cc_sign_requests k; mc_skip_sig := cc_skip_sig k |}, cc_now k, cc_hours k).
+  abbrev (cc_abbrev k) (md_xml_obs ({| mc_keys := cfg; mc_issuer := cc_issuer k; mc_acs_url := cc_acs_url k; mc_slo_url := cc_slo_url k;
+                 mc_sign_requests := cc_sign_requests k; mc_skip_sig := cc_skip_sig k |}, cc_now k, cc_hours k)).
 
 (* stale-cache scenario: configuration [calls1], first signature, then [calls2], second signature *)
 Definition c19_stale_obs (i : keycfg * list setter_call * list setter_call * string * list (string * string)) : val :=
